@@ -254,11 +254,58 @@ theorem inflate_ok (get : Bytes → Except Err Bytes) (h : Bytes) (cs : List Byt
       | none => simp [hp] at hi
       | some c => simp only [hp, Except.ok.injEq] at hi; subst hi; exact Or.inr ⟨der, rfl, hp⟩
 
-/-! ## Non-vacuity: concrete instances of the hypotheses -/
-
 def exH : Bytes → Bytes := fun _ => List.replicate 32 7
 def exCert : Bytes := [1, 2, 3]
 def exChain : List Bytes := [[4, 5], [6]]
+
+/-! ## ranges: all or nothing -/
+
+/-- **range_all_or_error.** get-entries over a range (`rpcGetLeavesByRange`): a successful answer has one fixed
+entry for every leaf of the backend's reply, each the result of `fixLogLeaf` on that leaf (so, by `fix_ok_cases`,
+never a raw hash form whose lookup failed); a failure on any leaf — first or not — fails the request. -/
+theorem range_all_or_error (results : List (Except Err Bytes)) (es xs : List Bytes) (h : fixRange results es = .ok xs) :
+    xs.length = es.length ∧ ∀ i (hi : i < es.length), ∃ get x, fixLogLeaf get es[i] = .ok x ∧ xs[i]? = some x := by
+  induction es generalizing results xs with
+  | nil =>
+    simp only [fixRange, Except.ok.injEq] at h
+    subst h
+    exact ⟨rfl, fun i hi => absurd hi (by simp)⟩
+  | cons e es ih =>
+    simp only [fixRange] at h
+    generalize hg : (if needsLookup e = true then
+        (match results with
+          | r :: rs => ((fun (_ : Bytes) => r), rs)
+          | [] => ((fun (_ : Bytes) => Except.error Err.unknownHash), []))
+      else ((fun (_ : Bytes) => Except.error Err.unknownHash), results)) = gr at h
+    obtain ⟨get, rest⟩ := gr
+    simp only at h
+    cases hf : fixLogLeaf get e with
+    | error err => simp [hf] at h
+    | ok x =>
+      simp only [hf] at h
+      cases hr : fixRange rest es with
+      | error err => simp [hr] at h
+      | ok ys =>
+        simp only [hr, Except.ok.injEq] at h
+        subst h
+        obtain ⟨hl, hall⟩ := ih rest ys hr
+        refine ⟨by simp [hl], ?_⟩
+        intro i hi
+        cases i with
+        | zero => exact ⟨get, x, hf, rfl⟩
+        | succ j =>
+          obtain ⟨g, y, hy1, hy2⟩ := hall j (by simpa using hi)
+          exact ⟨g, y, by simpa using hy1, by simpa using hy2⟩
+
+/-- a storage fault on the *second* leaf of a range fails the request (it is not cut short, nothing raw is served) -/
+example : (match fixRange [.ok (derChain exChain), .error .storage]
+    [(buildIndirect exH false exCert exChain).getD [], (buildIndirect exH true exCert exChain).getD []] with
+    | .error .storage => true
+    | _ => false) = true := by decide
+example : (fixRange [.ok (derChain exChain), .ok (derChain exChain)]
+    [(buildIndirect exH false exCert exChain).getD [], (buildIndirect exH true exCert exChain).getD []]).toOption.map List.length = some 2 := by decide
+
+/-! ## Non-vacuity: concrete instances of the hypotheses -/
 
 example : buildDirect false exCert exChain = some [0, 0, 9, 0, 0, 2, 4, 5, 0, 0, 1, 6] := by decide
 example : buildDirect true exCert [] = some [0, 0, 3, 1, 2, 3, 0, 0, 0] := by decide
